@@ -486,13 +486,19 @@ class C06(PropertyCheck):
         "label_connects", "label_connects_iff", "C06_counterexample_label",
         "phase_accumulated", "end_to_end_partial",
         "propagator_is_exponential", "rot_calibrated_exp", "iswap_calibrated_exp", "sqrtiswap_calibrated_exp",
-        "end_to_end_exp_partial")]
+        "end_to_end_exp_partial", "end_to_end_pulses_partial")] + [
+        # the composition lemmas behind end_to_end_pulses_partial (Lemmas/Compose*.lean)
+        "QipVerif.Compose.sliceProd_eq_windows", "QipVerif.Compose.channels_sliceProd",
+        "QipVerif.SpinChain.pulses_product"]
     technique = ("Lean 4: the compiler's formulas and tables regenerated from the source with ast into functions over an abstract "
                  "arithmetic, instantiated with R for the theorems and with Q for the compiled model driver; calibration "
                  "identities over C for every angle and strength, with the ideal propagator of a constant segment defined as "
                  "Mathlib's matrix exponential exp(-i*T*u*c*H) (closed forms proved from the power series: Q^3=Q lemma, even/odd "
                  "split); label rule for every chain length; composition with the "
-                 "transpilation theorem (C13/C03/C07) and disjoint-support commutation; instruction-level correspondence with "
+                 "transpilation theorem (C13/C03/C07) and disjoint-support commutation; composition of the instruction list with "
+                 "the models of C12 (schedule, grouping, source-driven _concatenate_pulses) and C14 (get_full_coeffs, slices, "
+                 "run_analytically): induction over the merged grid with exp(A+B) = exp A exp B for commuting generators on "
+                 "disjoint qubits and exp(sA) exp(tA) = exp((s+t)A); instruction-level correspondence with "
                  "the implementation and exact-unitary comparison with run_analytically")
     level_text = ("Lean 4 theorems about the regenerated formulas/tables of SpinChainCompiler, generate_pulse_shape and "
                   "SpinChainModel and the hand model of the compiler stage: for every real angle and every non-zero strength the "
@@ -509,15 +515,28 @@ class C06(PropertyCheck):
                   "N, topology, angle valuation, strength vector and accepted circuit, e^{i*phase} x product of the instructions' "
                   "ideal propagators = circuit unitary, in circuit order and in every scheduled time order respecting the "
                   "dependencies, composed from the transpilation theorem (C13/C03/C07), the calibration theorems and "
-                  "disjoint-support commutation. Partial: "
-                  "the step from the instruction list to the slice product of run_analytically (C12 + C14 + expm) is compared "
-                  "numerically (1e-9) on every run; hypotheses: no gate on more than two qubits unless transpile pre-decomposes them "
+                  "disjoint-support commutation. end_to_end_pulses_partial closes the step from the instruction list to the "
+                  "propagator run_analytically computes: for every rational instruction list whose cast is the compiled one, every "
+                  "scheduler answer accepted by C12's model of _schedule and the channels its grouping loop builds, C12's "
+                  "source-driven model of compile returns the closed-form channels, C14's model of get_full_coeffs (either padding "
+                  "variant) returns merged grid and rows, and e^{i*phase} x the product of the slice exponentials "
+                  "exp(-i*dt_k*sum_m rows[m][k]*H_m) (Grid.runAnalytically, Mathlib's exponential) = circuit unitary "
+                  "(Lemmas/ComposeSlices: slice product over a grid aligned with the pulse windows = ordered product of "
+                  "exp(-i*dur*coeff*H_label), any order compatible with the time order; ComposeChannels: the Hamiltonian of a slice "
+                  "is the sum of the generators of the windows containing it, window end points are merged grid points). Partial: "
+                  "that composition is about exact rational arithmetic (durations, coefficients and start times as rationals, no "
+                  "float rounding) and takes the facts about the schedule as hypotheses: every idle gap on a channel is 0 or above "
+                  "time_tol (C12 ValidG), pulses whose control Hamiltonians share a qubit are disjoint in time and the "
+                  "dependencies are respected (C11), distinct merged grid points are more than tol apart (C14 SepAll); the floats "
+                  "of the implementation are compared numerically (1e-9) with the exact unitary on every run; hypotheses: no gate on more than two qubits unless transpile pre-decomposes them "
                   "(C13-1, applied), positive instruction durations unless compile drops zero-duration instructions (C06-2, applied: "
                   "clause 6 of end_to_end_partial discharges it), the "
                   "routing stage over C (RouteStageDen), PHASEGATE at multiples of pi/4.")
     level_note = ("Trusted: Lean kernel (propext, Classical.choice, Quot.sound); py/translate/spinchain.py (ast), "
                   "cross-checked against the live compiler/model objects every run; the models of C13/C07/C03 and C05/C11 as composed "
-                  "in lean/Drv/SpinChain.lean; C12/C14 for concatenation and slice product; numpy/scipy expm (that Qobj.expm computes "
+                  "in lean/Drv/SpinChain.lean; the models of C12/C14 for concatenation and slice product (their correspondences; the "
+                  "composition instruction list -> pulses -> slices -> propagator is now a Lean theorem over these models, "
+                  "end_to_end_pulses_partial, under the schedule hypotheses listed in level_text); numpy/scipy expm (that Qobj.expm computes "
                   "the matrix exponential); the harness.  No analytic closed form is trusted any more: exp(-i phi P) and "
                   "exp(-i phi (XX+YY)) are proved from Mathlib's exponential (Lemmas/MatExp.lean, Lemmas/SpinChainExp.lean).  The fixes "
                   "C06-1, C06-2, C13-1 are applied in /repo; the regenerated flags loadsEmpty, dropsZeroDuration, pre are true.")
@@ -527,14 +546,22 @@ class C06(PropertyCheck):
         "constant Hamiltonian segment' exp(-i*T*H); the closed forms are proved, not assumed",
         "py/translate/spinchain.py (ast extraction of the compiler/model formulas and tables), cross-checked against the live "
         "objects every run",
-        "models of C13/C07/C03 (transpile), C05/C11 (scheduler) as composed by lean/Drv/SpinChain.lean; C12/C14 for the "
-        "concatenation of the instructions into pulses and the slice product (their own theorems and correspondences)",
+        "models of C13/C07/C03 (transpile), C05/C11 (scheduler) as composed by lean/Drv/SpinChain.lean; the models of C12 "
+        "(Concat.schedule/groupPulses/compileS with the regenerated Gen/ConcatSrc.lean) and C14 (Grid.fullCoeffsV/slices/"
+        "runAnalytically) as the meaning of 'what compile and run_analytically compute' in end_to_end_pulses_partial (tied to the "
+        "code by the correspondences of C12/C14, re-run by their checks; Gen/ConcatSrc.lean is regenerated by this check too)",
+        "end_to_end_pulses_partial: exact rational arithmetic; hypotheses ValidG (C12), PulseDisjoint/DepRespected (C11), "
+        "SepAll (C14) about the schedule are not derived from the scheduler model",
         "py/props/c06.py harness; numpy/scipy expm inside run_analytically (runtime numerics, 1e-9 band)",
     ]
     assumptions = ["hardware strengths are non-zero (the property says positive)",
                    "circuits consist of library gates without classical controls and contain no measurement",
                    "end_to_end_partial: hypothesis RouteStageDen (routing stage preserves denG, as in C13); PHASEGATE with a fixed "
                    "angle is a multiple of pi/4 (C03's phOK); DepRespected is C11's dep_respected for the start times (not re-proved here)",
+                   "end_to_end_pulses_partial: durations, coefficients and start times are rational numbers and the arithmetic is exact "
+                   "(no float rounding); idle gaps on a channel are 0 or above time_tol (C12 ValidG); pulses whose control Hamiltonians "
+                   "act on a common qubit do not overlap in time (C11 timetable_valid); distinct merged grid points are more than tol "
+                   "apart (C14 SepAll); control channels without pulse (rows of zeros) are left out of the model's channel list",
                    "classes excluded from the oracle sweep exactly when the source has the defective shape: circuits with a gate on "
                    "more than two qubits (transpile without pre-decomposition), circuits with a rotation by exactly 0 (compile keeps "
                    "zero-duration instructions), circuits that need no pulse (load_circuit cannot store an empty pulse set)"]
@@ -549,7 +576,12 @@ class C06(PropertyCheck):
         self.pre = detect_pre()
         self.skip_zero = self.info["drops"]
         self.empty_ok = self.info["empty_ok"]
-        return ["SpinChainTables.lean"]
+        out = ["SpinChainTables.lean"]
+        # end_to_end_pulses_partial is a theorem about C12's source-driven model `compileS Gen.concatSrc`: keep the
+        # description of _concatenate_pulses / compile current for the tree under check (TranslatorError -> red)
+        from props import c12 as _c12
+        out += [os.path.basename(p) for p in (_c12.CHECK.regenerate(ctx) or [])]
+        return out
 
     # ---------------------------------------------------------------------------------
     def _tables_check(self, ctx, res):
